@@ -27,3 +27,4 @@ PROP = dict(
         rc('C17_foreach_big', 'harness/C17_foreach_big.cpp', None, san='', opt='-O2 -g', hang_s=900, thorough=dict(seeds=1)),
     ],
 )
+PROP['rule'] += ' Round-3 extension: for_each is also called with functors returning false, 0, nullptr and with a std::function<int(const vec3i&)> (results are ignored, every coordinate is visited).'
